@@ -29,7 +29,7 @@ class InjectedBase(BaseException):
 
 def main():
     tier = common.tier()
-    nshards, nprogs = (16, 2) if tier == "quick" else (32, 60)
+    nshards, nprogs = (16, 6) if tier == "quick" else (32, 60)
     jobs = [dict(seed="%d/%s/%d" % (common.seed(), PROP, s), nprogs=nprogs) for s in range(nshards)]
     R = common.Run(PROP, "fault_enumeration", RULE)
     for job, res, err in shard.run_jobs("vf.checks.C08", "worker", jobs, timeout=3600, nproc=16):
@@ -104,6 +104,17 @@ class SrcGen:
         elif k < 0.86 and in_block:
             # API misuse that the library reports when the region closes: a variable defined in one branch only
             self.emit(ind, "_.z%d = x0" % self.fresh())
+        elif k < 0.89 and in_block:
+            # ... or a list that changes its length in the region (refused while the branch is merged)
+            self.emit(ind, "_.l = _.l + [x1]")
+        elif k < 0.94:
+            # a function wrapped with @snark that fails half-way (an application error on a public argument) and whose failure the
+            # program handles on the spot: the enclosing regions carry on as they were
+            self.emit(ind, "try:")
+            self.emit(ind + 1, "s%d = _snk(x0, %d)" % (self.fresh(), r.randint(-4, 3)))
+            self.emit(ind, "except LookupError:")
+            self.emit(ind + 1, "pass")
+            self.emit(ind, "__inside(0, %d)" % eff)
         else:
             self.emit(ind, "t%d = x0 / %d" % (self.fresh(), r.choice([1, 2, 3])))
 
@@ -192,21 +203,32 @@ class SrcGen:
             self.emit(ind, "__enter(%d, 'block', %d, _)" % (rid, conj(eff, v)))
             self.emit(ind, "if _if(%s, ctx=_):" % c)
             self.emit(ind + 1, "__inside(%d, %d)" % (rid, conj(eff, v)))
+            public_if = not c.startswith("c")       # a public (true) condition: further branches would be publicly dead, which the
+            mis = None
             if self.force_misuse:
+                # where the refusal arises: a variable defined in the first branch only (reported after the last branch was merged),
+                # one defined in the else branch only or a list that grew (reported *while* a branch is being merged)
                 self.force_misuse = False
-                self.emit(ind + 1, "_.z%d = x0" % self.fresh())
+                mis = r.choice(["first", "else", "grow", "grow"])
+                if public_if and mis == "else":
+                    mis = "first"
+                if mis == "first":
+                    self.emit(ind + 1, "_.z%d = x0" % self.fresh())
+                elif mis == "grow":
+                    self.emit(ind + 1, "_.l = _.l + [x1]")
             self.body(ind + 1, depth, conj(eff, v), True)
             rest = 1 - v
-            public_if = not c.startswith("c")       # a public (true) condition: further branches would be publicly dead, which the
             if not public_if and r.random() < 0.4:  # library refuses in its own ways (DESIGN 6.12) - none are generated
                 c2, v2 = self.cond(allow_public=False)
                 self.emit(ind, "if _elif(lambda: %s, ctx=_):" % c2)
                 self.emit(ind + 1, "__inside(%d, %d)" % (rid, conj(conj(eff, rest), v2)))
                 self.body(ind + 1, depth, conj(conj(eff, rest), v2), True)
                 rest = rest & (1 - v2)
-            if not public_if and r.random() < 0.5:
+            if not public_if and (r.random() < 0.5 or mis == "else"):
                 self.emit(ind, "if _else(ctx=_):")
                 self.emit(ind + 1, "__inside(%d, %d)" % (rid, conj(eff, rest)))
+                if mis == "else":
+                    self.emit(ind + 1, "_.z%d = x0" % self.fresh())
                 self.body(ind + 1, depth, conj(eff, rest), True)
             self.emit(ind, "try:")
             self.emit(ind + 1, "_endif(ctx=_)")
@@ -265,7 +287,9 @@ class SrcGen:
                 self.simple(0, 1, False)
         head = ["x0 = PrivVal(I[0])", "x1 = PrivVal(I[1])", "x2 = PrivVal(I[2])"]
         head += ["c%d = PrivValBool(I[%d])" % (k, 3 + k) for k in range(self.ncond)]
-        head += ["_ = BranchingValues()", "_.a = x2 + 0"]
+        head += ["_ = BranchingValues()", "_.a = x2 + 0", "_.l = [x0 + 0]"]
+        # (the helper fails on a public argument, i.e. in the same way whatever the secret conditions are)
+        head += ["@snark", "def _snk(a, b):", "    t = a * b + 1", "    if b.value < 0:", "        raise LookupError('negative table index')", "    return t"]
         if r.random() < 0.12:
             # a context value that cannot be copied (the backup every region entry takes fails): the region never starts, and
             # nothing of it may stay behind
